@@ -722,6 +722,19 @@ pub fn gen_name(rng: &mut Rng, max_attrs: usize) -> NameSpec {
 }
 
 pub fn gen_ip(rng: &mut Rng) -> IpAddr {
+	// special forms that "normalising" code likes to rewrite
+	if rng.chance(1, 6) {
+		let b = rng.bytes(4);
+		let v4 = Ipv4Addr::new(b[0], b[1], b[2], b[3]);
+		return match rng.below(6) {
+			0 => IpAddr::V6(v4.to_ipv6_mapped()),
+			1 => IpAddr::V6(Ipv6Addr::new(0, 0, 0, 0, 0, 0, ((b[0] as u16) << 8) | b[1] as u16, ((b[2] as u16) << 8) | b[3] as u16)),
+			2 => IpAddr::V6(Ipv6Addr::LOCALHOST),
+			3 => IpAddr::V6(Ipv6Addr::UNSPECIFIED),
+			4 => IpAddr::V4(Ipv4Addr::UNSPECIFIED),
+			_ => IpAddr::V4(Ipv4Addr::BROADCAST),
+		};
+	}
 	if rng.chance(1, 2) {
 		let b = rng.bytes(4);
 		IpAddr::V4(Ipv4Addr::new(b[0], b[1], b[2], b[3]))
